@@ -1,6 +1,6 @@
 (* C13 — decoding is prefix-local: records can be read from a stream or list. *)
 Require Import Enr.Bytes Enr.Consts Enr.Rlp Enr.SortedMap Enr.Keccak Enr.Record Enr.Update Enr.Spec.
-Require Import EnrProofs.Thm_Prefix EnrProofs.Thm_Decode EnrProofs.Thm_More.
+Require Import EnrProofs.Thm_Prefix EnrProofs.Thm_PrefixVec EnrProofs.Thm_Decode EnrProofs.Thm_More.
 Open Scope N_scope.
 
 (* same outcome as for the item alone, whatever follows; on success the remainder is what followed *)
@@ -32,3 +32,9 @@ Theorem decode_stream : forall (c : crypto) kt r rs rest,
   Valid c kt r -> decode c kt (encode r ++ flat_map encode rs ++ rest) = Ok (r, flat_map encode rs ++ rest).
 Proof. exact Thm_More.decode_stream. Qed.
 Print Assumptions decode_stream.
+
+(* lists of records: the same outcome whatever follows the list item *)
+Theorem decode_vec_prefix_local : forall (c : crypto) kt item s,
+  complete_item item -> decode_vec c kt (item ++ s) = lift_suffix_vec (decode_vec c kt item) s.
+Proof. exact Thm_PrefixVec.decode_vec_prefix_local. Qed.
+Print Assumptions decode_vec_prefix_local.
